@@ -19,9 +19,11 @@ import (
 	"os"
 	"os/exec"
 	"path/filepath"
+	"runtime"
 	"sort"
 	"strconv"
 	"strings"
+	"sync"
 	"time"
 )
 
@@ -683,9 +685,22 @@ func obsEqual(a, b []ObsEval) bool {
 // crossCheck re-runs solver transcripts through a second solver and compares
 // the sat/unsat answer sequence.
 func crossCheck(files []string) (agree, disagree, unknown int) {
-	for _, f := range files {
+	others := make([][]string, len(files))
+	sem := make(chan struct{}, runtime.NumCPU())
+	var wg sync.WaitGroup
+	for i, f := range files {
+		wg.Add(1)
+		go func(i int, f string) {
+			defer wg.Done()
+			sem <- struct{}{}
+			others[i] = answersOf("z3-new", f)
+			<-sem
+		}(i, f)
+	}
+	wg.Wait()
+	for k, f := range files {
 		orig := recordedAnswers(f)
-		other := answersOf("z3-new", f)
+		other := others[k]
 		n := len(orig)
 		if len(other) < n {
 			n = len(other)
